@@ -15,6 +15,42 @@ structure GInv (d : Disk n) : Prop where
   count : d.count = d.txs.length
   lc : d.lcHigh = maxClock d.txs
   head : (d.txs = [] ∧ d.head = none) ∨ (∃ t ∈ d.txs, d.head = some t.ref ∧ t.clock = maxClock d.txs)
+  /-- a ref is stored once -/
+  nodup : (d.txs.map (·.ref)).Nodup
+  /-- the keys of the clock shelf are exactly the clocks `0 … highest clock` -/
+  keys : d.clocks.map (·.1) = if d.txs = [] then [] else List.range' 0 (maxClock d.txs + 1)
+
+theorem putSorted_keys {α : Type} (c : Nat) (v : α) : ∀ (l : List (Nat × α)) (s k : Nat),
+    l.map (·.1) = List.range' s k → s ≤ c → c ≤ s + k →
+    (putSorted c v l).map (·.1) = List.range' s (max k (c - s + 1)) := by
+  intro l
+  induction l with
+  | nil =>
+    intro s k h h1 h2
+    cases k with
+    | zero =>
+      have : c = s := by omega
+      subst this
+      simp [putSorted, List.range'_succ]
+    | succ k => simp [List.range'_succ] at h
+  | cons x rest ih =>
+    intro s k h h1 h2
+    obtain ⟨k0, v0⟩ := x
+    cases k with
+    | zero => simp at h
+    | succ k' =>
+      simp only [List.map_cons, List.range'_succ, List.cons.injEq] at h
+      obtain ⟨hk0, hrest⟩ := h
+      subst hk0
+      by_cases hc : c = k0
+      · subst hc
+        have hm : max (k' + 1) (c - c + 1) = k' + 1 := by omega
+        simp only [putSorted, Nat.lt_irrefl, if_false, if_true, List.map_cons, hm, List.range'_succ, hrest]
+      · have h1' : ¬ c < k0 := by omega
+        simp only [putSorted, h1', hc, if_false, List.map_cons]
+        rw [ih (k0 + 1) k' hrest (by omega) (by omega)]
+        have hm : max (k' + 1) (c - k0 + 1) = max k' (c - (k0 + 1) + 1) + 1 := by omega
+        rw [hm, List.range'_succ]
 
 theorem GInv.empty : GInv ({} : Disk n) where
   idx := fun _ => rfl
@@ -22,6 +58,8 @@ theorem GInv.empty : GInv ({} : Disk n) where
   count := rfl
   lc := rfl
   head := Or.inl ⟨rfl, rfl⟩
+  nodup := List.nodup_nil
+  keys := rfl
 
 theorem getTx_mem {d : Disk n} {r : Ref} {t : Tx} (h : d.getTx r = some t) : t ∈ d.txs ∧ t.ref = r := by
   unfold Disk.getTx at h
@@ -159,7 +197,7 @@ theorem graphAdd_spec {d : Disk n} (g : GInv d) {tx : Tx} (hnp : d.isPresent tx.
       · by_cases h1 : tx.clock > d.lcHigh
         · simp [newHead, h1]; omega
         · simp [newHead, h1, h0]; omega
-    refine ⟨d', hadd, ⟨?_, ?_, ?_, ?_, ?_⟩, rfl, rfl, rfl, hlc, hle, hempty⟩
+    refine ⟨d', hadd, ⟨?_, ?_, ?_, ?_, ?_, ?_, ?_⟩, rfl, rfl, rfl, hlc, hle, hempty⟩
     · intro c
       show (getSorted c (putSorted tx.clock _ d.clocks)).getD [] = ((d.txs ++ [tx]).filter _).map _
       rw [getSorted_putSorted, filter_clock_snoc]
@@ -196,5 +234,25 @@ theorem graphAdd_spec {d : Disk n} (g : GInv d) {tx : Tx} (hnp : d.isPresent tx.
         · exact absurd (hempty he) hle'.2
         · refine ⟨t, List.mem_append.mpr (Or.inl ht), by simp [hh', e1], ?_⟩
           rw [e2, ← g.lc]; omega
+
+    · show ((d.txs ++ [tx]).map (·.ref)).Nodup
+      rw [List.map_append, List.nodup_append]
+      refine ⟨g.nodup, by simp, ?_⟩
+      intro a ha b hb
+      simp only [List.mem_map] at ha
+      obtain ⟨t, ht, rfl⟩ := ha
+      simp at hb; subst hb
+      exact hfresh t ht
+    · show (putSorted tx.clock _ d.clocks).map (·.1) = if d.txs ++ [tx] = [] then [] else List.range' 0 (maxClock (d.txs ++ [tx]) + 1)
+      have hne : d.txs ++ [tx] ≠ [] := by simp
+      rw [if_neg hne, maxClock_snoc]
+      by_cases hS : d.txs = []
+      · have hk : d.clocks.map (·.1) = List.range' 0 0 := by rw [g.keys, if_pos hS]; rfl
+        have h0 := hempty hS
+        rw [putSorted_keys _ _ _ 0 0 hk (by omega) (by omega), hS, h0]
+        rfl
+      · have hk : d.clocks.map (·.1) = List.range' 0 (maxClock d.txs + 1) := by rw [g.keys, if_neg hS]
+        rw [putSorted_keys _ _ _ 0 _ hk (by omega) (by omega)]
+        congr 1; omega
 
 end Nuts.C08
